@@ -45,8 +45,8 @@ impl L {
     }
     fn find(&self, x: u8) -> Option<usize> {
         let mut i = 0;
-        while i < self.n {
-            if self.k[i] == x {
+        while i < 4 {
+            if i < self.n && self.k[i] == x {
                 return Some(i);
             }
             i += 1;
@@ -54,9 +54,11 @@ impl L {
         None
     }
     fn remove_at(mut self, p: usize) -> L {
-        let mut i = p;
-        while i + 1 < self.n {
-            self.k[i] = self.k[i + 1];
+        let mut i = 0;
+        while i < 3 {
+            if i >= p && i + 1 < self.n {
+                self.k[i] = self.k[i + 1];
+            }
             i += 1;
         }
         self.n -= 1;
@@ -77,12 +79,15 @@ fn abs(b: &KBucket<K, u8>) -> Abs {
     let mut disc = L::empty();
     let mut conn = L::empty();
     let split = b.first_connected_pos.unwrap_or(b.nodes.len());
+    let len = b.nodes.len();
     let mut i = 0;
-    while i < b.nodes.len() {
-        if i < split {
-            disc = disc.push(kb(&b.nodes[i].key));
-        } else {
-            conn = conn.push(kb(&b.nodes[i].key));
+    while i < CAP + 1 {
+        if i < len {
+            if i < split {
+                disc = disc.push(kb(&b.nodes[i].key));
+            } else {
+                conn = conn.push(kb(&b.nodes[i].key));
+            }
         }
         i += 1;
     }
@@ -103,18 +108,23 @@ fn wf(b: &KBucket<K, u8>) -> bool {
             return false;
         }
     }
+    if n > CAP + 1 {
+        return false;
+    }
     let mut i = 0;
-    while i < n {
-        let mut j = i + 1;
-        while j < n {
-            if kb(&b.nodes[i].key) == kb(&b.nodes[j].key) {
-                return false;
+    while i < CAP + 1 {
+        if i < n {
+            let mut j = 0;
+            while j < CAP + 1 {
+                if j > i && j < n && kb(&b.nodes[i].key) == kb(&b.nodes[j].key) {
+                    return false;
+                }
+                j += 1;
             }
-            j += 1;
-        }
-        if let Some(p) = &b.pending {
-            if kb(&p.node.key) == kb(&b.nodes[i].key) {
-                return false;
+            if let Some(p) = &b.pending {
+                if kb(&p.node.key) == kb(&b.nodes[i].key) {
+                    return false;
+                }
             }
         }
         i += 1;
@@ -348,28 +358,28 @@ fn check_status_position<const N: usize>() {
 }
 
 #[kani::proof]
-#[kani::unwind(6)]
+#[kani::unwind(34)]
 #[kani::stub(std::time::Instant::now, clock::now)]
 fn contract_insert_n0() {
     check_insert::<0>();
 }
 
 #[kani::proof]
-#[kani::unwind(6)]
+#[kani::unwind(34)]
 #[kani::stub(std::time::Instant::now, clock::now)]
 fn contract_insert_n1() {
     check_insert::<1>();
 }
 
 #[kani::proof]
-#[kani::unwind(6)]
+#[kani::unwind(34)]
 #[kani::stub(std::time::Instant::now, clock::now)]
 fn contract_insert_n2() {
     check_insert::<2>();
 }
 
 #[kani::proof]
-#[kani::unwind(6)]
+#[kani::unwind(34)]
 #[kani::stub(std::time::Instant::now, clock::now)]
 fn contract_insert_n3() {
     check_insert::<3>();
@@ -428,28 +438,28 @@ fn contract_update_n3() {
 }
 
 #[kani::proof]
-#[kani::unwind(6)]
+#[kani::unwind(34)]
 #[kani::stub(std::time::Instant::now, clock::now)]
 fn contract_apply_pending_n0() {
     check_apply_pending::<0>();
 }
 
 #[kani::proof]
-#[kani::unwind(6)]
+#[kani::unwind(34)]
 #[kani::stub(std::time::Instant::now, clock::now)]
 fn contract_apply_pending_n1() {
     check_apply_pending::<1>();
 }
 
 #[kani::proof]
-#[kani::unwind(6)]
+#[kani::unwind(34)]
 #[kani::stub(std::time::Instant::now, clock::now)]
 fn contract_apply_pending_n2() {
     check_apply_pending::<2>();
 }
 
 #[kani::proof]
-#[kani::unwind(6)]
+#[kani::unwind(34)]
 #[kani::stub(std::time::Instant::now, clock::now)]
 fn contract_apply_pending_n3() {
     check_apply_pending::<3>();
